@@ -21,7 +21,11 @@ META = dict(
           "(a commutator with a Hermitian H of a Hermitian matrix is traceless and, times i, Hermitian; a tensor with the "
           "two C01 identities maps Hermitian matrices to traceless-increment Hermitian ones; sums of such terms) are Lean "
           "lemmas whose hypotheses are discharged at the loop body from the callee contracts. The state-vector "
-          "propagator's dispatch is proved to hand the requested expansion order on. Not decided: positive "
+          "propagator's dispatch is proved to hand the requested expansion order on. The conversion of a stored evolution "
+          "between the rotating-wave frame and the laboratory frame (DensityMatrixEvolution.convert_from_RWA, both "
+          "directions) is proved to multiply element (a,b) at time t_i by exp(-/+ i (W_a - W_b) t_i) for every time index, "
+          "to set the frame flag accordingly and to leave an evolution that is already in the laboratory frame untouched. "
+          "Not decided: positive "
           "semidefiniteness, agreement with exp(Lt), conservation of norm/purity/energy, state-vector vs density-matrix "
           "and rotating-wave vs laboratory frame agreement - all statements about the truncation error of the expansion."),
     note=("operator-form generators (_OTI) are covered through C07 (operator form = tensor form); pure dephasing "
@@ -173,13 +177,46 @@ def contracts(reg):
     for nm in ("__propagate_short_exp", "__propagate_short_exp_with_relaxation", "__propagate_short_exp_with_rel_operators"):
         pass
 
+    # ---- rotating-wave frame <-> laboratory frame of a stored evolution -------------------------------------------------------------
+    DM = "quantarhei/qm/propagators/dmevolution.py::DensityMatrixEvolution"
+
+    def setup_rwa(S, in_rwa, sgn):
+        n, nt = S.int("N"), S.int("Nt")
+        om = S.array("HOmega", (n,), "real")
+        ta = S.obj("TimeAxis(stub)", label="TimeAxis", length=nt, data=S.array("tdata", (nt,), "real"))
+        ham = S.obj("Hamiltonian(stub)", label="ham", get_RWA_skeleton=Builtin("ham.get_RWA_skeleton", lambda ex, a, k, l: om))
+        me = S.obj(DM, label="self", TimeAxis=ta, _data=S.array("evo", (nt, n, n), "cx"), is_in_rwa=in_rwa)
+        return dict(self=me, ham=ham, sgn=sgn, N=n, Nt=nt, HOmega=om, tdata=ta.fields["data"])
+    T = reg.models.table
+    T["exp"] = T["numpy.exp"]
+    T["conj"] = T["numpy.conj"]
+    PHASE = ("forall((i, a, b), (range(0, {hi}), range(0, N), range(0, N)), self.data[i,a,b] == "
+             "exp(-({sg})*1j*HOmega[a]*tdata[i])*({old}[i,a,b]*conj(exp(-({sg})*1j*HOmega[b]*tdata[i]))))")
+    REST = "forall((i, a, b), (range(_i, Nt), range(0, N), range(0, N)), self.data[i,a,b] == entry(self.data)[i,a,b])"
+    for in_rwa, sgn, tag in ((True, 1, "from-the-rotating-frame"), (False, -1, "into-the-rotating-frame"), (True, -1, "backward-again")):
+        reg.add(Contract(
+            DM + ".convert_from_RWA#" + tag, setup=(lambda S, r=in_rwa, g=sgn: setup_rwa(S, r, g)),
+            requires=["N >= 0", "Nt >= 0"],
+            ensures=[("every-element-gets-the-phase-of-its-frequency-difference",
+                      PHASE.format(hi="Nt", sg=str(sgn), old="old(self.data)")),
+                     ("frame-flag", "self.is_in_rwa == %s" % ("False" if sgn == 1 else str(in_rwa)))],
+            loops={0: dict(inv=[PHASE.format(hi="_i", sg=str(sgn), old="entry(self.data)"), REST], modifies=["self.data"])}))
+    reg.add(Contract(
+        DM + ".convert_from_RWA#already-in-the-laboratory-frame", setup=lambda S: setup_rwa(S, False, 1),
+        requires=["N >= 0", "Nt >= 0"],
+        ensures=[("nothing-converted-twice", "forall((i, a, b), (range(0, Nt), range(0, N), range(0, N)), "
+                                             "self.data[i,a,b] == old(self.data)[i,a,b])"),
+                 ("frame-flag", "self.is_in_rwa == False")]))
+
 
 def plan(ctx):
     p = Plan("C02")
     contracts(ctx.registry)
     p.functions = [RP + "_COM", RP + "_TTI", P + "__propagate_short_exp", P + "__propagate_short_exp_with_relaxation",
                    P + "__propagate_short_exp_with_relaxation#lorentzian-dephasing",
-                   SV + "StateVectorPropagator.propagate"]
+                   SV + "StateVectorPropagator.propagate"] + \
+                  ["quantarhei/qm/propagators/dmevolution.py::DensityMatrixEvolution.convert_from_RWA#" + t
+                   for t in ("from-the-rotating-frame", "into-the-rotating-frame", "backward-again", "already-in-the-laboratory-frame")]
     p.extra_axioms = [V.ufun("exp", 0) == 1]
     p.oracles = ["native/oracle_C02.py"]
     p.not_decided = ["positive semidefiniteness; agreement with exp(Lt) within the truncation bound; conservation of norm, "
